@@ -125,6 +125,10 @@ def main(argv):
             i += 1
         i += 1
     seed = int(os.environ.get("VERIF_SEED", "20260926"))
+    import logging
+
+    logging.getLogger("asyncio").setLevel(logging.CRITICAL)  # cancelled-dispatcher noise at server.close()
+    logging.getLogger("aioftp").setLevel(logging.CRITICAL)
     mod = importlib.import_module(f"harness.props.{pid.lower()}")
     ctx = core.Ctx(pid, tier, seed)
     ctx.rng = random.Random(seed)
